@@ -9,7 +9,7 @@ use nexrad_decode::messages as dm;
 use rayon::prelude::*;
 use serde_json::{json, Value};
 
-pub const SYMBOLS: [&str; 12] = ["status", "vcp", "t15", "t3", "t18", "u200", "t31_empty", "t31_basic", "t31_all", "t31_1840", "vcp51", "t31_phi257"];
+pub const SYMBOLS: [&str; 13] = ["status", "vcp", "t15", "t3", "t18", "u200", "t31_empty", "t31_basic", "t31_all", "t31_1840", "vcp51", "t31_phi257", "t31_elv_last"];
 
 /// Bytes of one message of symbol `sym` at stream position `pos` (position is stamped into the
 /// header sequence number and the time so that equal kinds are distinguishable).
@@ -57,6 +57,12 @@ pub fn message_bytes(sym: usize, pos: usize) -> Vec<u8> {
             mh.typ = 5;
             let cuts: Vec<VcpCut> = (0..51).map(|i| VcpCut::new(0x0058 + 8 * i, (i % 3) as u8, 1 + (i % 5) as u8, (i % 2) as u8, i)).collect();
             fixed_frame(&mh, &vcp_body(&vcp_header_hw(215, 51), &cuts))
+        }
+        12 => {
+            // the physically last block is the shortest one (12-byte ELV); a zero-gate moment before it
+            let h = T31Header::basic(5, pos as u16 + 1, 19000, pos as u32);
+            let blocks = vec![Block::rad(5), Block::moment(KIND_NAMES[4], 0, 8, 2.0, 129.0, &[]), Block::elv(5)];
+            t31_message(&mh, &h, &blocks, &Layout::default())
         }
         _ => {
             // 16-bit PHI with an odd gate count above 256, no VOL block
@@ -249,7 +255,7 @@ pub fn run(ctx: &'static Ctx) -> (&'static str, Value, Vec<&'static str>) {
     // the three extra kinds (1840-gate radial, 51-cut VCP, 257-gate 16-bit PHI): every stream over
     // all 12 kinds up to one message shorter, keeping only those that use an extra kind
     for len in 1..maxlen {
-        words_all.extend(words(12, len).filter(|w| w.iter().any(|x| *x >= 9)));
+        words_all.extend(words(13, len).filter(|w| w.iter().any(|x| *x >= 9)));
     }
     let s1: Stats = words_all
         .par_iter()
@@ -322,9 +328,9 @@ pub fn run(ctx: &'static Ctx) -> (&'static str, Value, Vec<&'static str>) {
     // truncations
     let mut s4 = Stats::new();
     let mut bases: Vec<Vec<usize>> = Vec::new();
-    for a in 0..12 {
+    for a in 0..13 {
         bases.push(vec![a]);
-        for b in [0usize, 6, 7, 8, 11] {
+        for b in [0usize, 6, 7, 8, 11, 12] {
             bases.push(vec![a, b]);
         }
     }
@@ -378,7 +384,7 @@ pub fn run(ctx: &'static Ctx) -> (&'static str, Value, Vec<&'static str>) {
     }
     let stats = s1.merge(s2).merge(s3).merge(s4).merge(sh).merge(ssr);
     let cov = stats.coverage(
-        "all streams over a 9-kind alphabet {status, VCP, type 15, type 3, type 18, unknown 200, type-31 with 0 / 4 / 10 blocks} and, one message shorter, over 12 kinds (+ 1840-gate radial larger than a frame, 51-cut VCP, 257-gate 16-bit PHI radial) of length 0..=5 (thorough 0..=6), each message stamped with its position; all 256x16 (thorough 256x256) two-frame type-code pairs; three 300-message streams; runs of 1..=40,64,100,133..135,150 (thorough 1..=150) consecutive fixed frames, a radial, and a second run; truncations of a base set: every cut for type-31-only streams, every cut within 200 bytes of a message boundary plus a stride inside fixed frames. History: every sequence of <= 3 decode calls over 8 inputs on a fresh thread; short-read reader shapes. Differential oracle: message i equals the same bytes decoded alone. non-trivial = >=2 messages or a truncation; distinct by content hash",
+        "all streams over a 9-kind alphabet {status, VCP, type 15, type 3, type 18, unknown 200, type-31 with 0 / 4 / 10 blocks} and, one message shorter, over 13 kinds (+ 1840-gate radial larger than a frame, 51-cut VCP, 257-gate 16-bit PHI radial, a radial whose last block is the 12-byte ELV block) of length 0..=5 (thorough 0..=6), each message stamped with its position; all 256x16 (thorough 256x256) two-frame type-code pairs; three 300-message streams; runs of 1..=40,64,100,133..135,150 (thorough 1..=150) consecutive fixed frames, a radial, and a second run; truncations of a base set: every cut for type-31-only streams, every cut within 200 bytes of a message boundary plus a stride inside fixed frames. History: every sequence of <= 3 decode calls over 8 inputs on a fresh thread; short-read reader shapes. Differential oracle: message i equals the same bytes decoded alone. non-trivial = >=2 messages or a truncation; distinct by content hash",
         true,
         json!({"alphabet": SYMBOLS, "max_length": maxlen}),
     );
